@@ -52,6 +52,7 @@ TRUSTED_EXTRA = ["pandas groupby(sort=False), DataFrame.iloc/loc slicing, np.ave
                  "genemetrics are re-read from cnvlib into Generated/ExprsByGene.lean, ExprsGeneMetrics.lean "
                  "(Props/C16SrcByGene.lean, C16SrcReports.lean: the model equals them)",
                  "biweight_location (default squash summary, C19): only coordinates / row count compared"]
+ONLY_OP = os.environ.get("C16_ONLY_OP")  # development: restrict the generated and corpus cases to one op
 PREFIX = bool(os.environ.get("C16_PREFIX_MODEL"))  # development: compare with the model of the code before fix L
 OTHER = ["Antitarget", "Antitarget", "-", ".", "CGH", "Background"]
 ODD_GENES = ["GNAS", "G6PD", "GATA3-AS1", "G.1", "GCGH", "GAntitarget", "G-", "GBackground", "Gcgh", "G_Antitarget"]
@@ -469,6 +470,8 @@ def corpus():
             c["in"]["prefix"] = True
     else:
         cs += _c16ext.corpus()
+    if ONLY_OP:
+        cs = [c for c in cs if c["op"] == ONLY_OP]
     return cs
 
 
@@ -503,6 +506,8 @@ def gen_cases(rng, tier):
             cases.append(_case(rng, op, True, small))
     if not PREFIX:
         cases += _c16ext.gen(rng, tier)
+    if ONLY_OP:  # development (mutation self-tests): one op only
+        cases = [c for c in cases if c["op"] == ONLY_OP]
     return cases
 
 
